@@ -725,6 +725,7 @@ class Comparison_evaluate_comparison(Contract):
         right = cx.opaque("value", base="right")
         for v in (left, right):
             v.attrs["isinstance"] = lambda n: False if n in ("DerivationTree",) else None
+            v.attrs["eq"] = lambda other: cx.bool("user_values_equal")
         def mk(nm):
             sym = cx.opaque("Symbol", base=nm + "_symbol")
             isnt = cx.bool(nm + "_symbol_is_nt").term
@@ -766,8 +767,14 @@ class Comparison_distance_norm(Contract):
             return None
 
         # user values: `-` either raises or returns some value (not the object `float | int`)
-        l.attrs["binop"] = lambda op, other: ("raise" if cx.branch(sub_raises, "left-right raises") else cx.opaque("value", base="dist"))
-        r.attrs["binop"] = lambda op, other: ("raise" if cx.branch(rsub_raises, "right-left raises") else cx.opaque("value", base="dist"))
+        def user_value(name):
+            o = cx.opaque("value", base=name)
+            # a user value may be of any type: isinstance checks on it are undetermined
+            o.attrs["isinstance"] = lambda n: cx.bool(f"{name}_isinstance_{n}").term
+            return o
+
+        l.attrs["binop"] = lambda op, other: ("raise" if cx.branch(sub_raises, "left-right raises") else user_value("dist"))
+        r.attrs["binop"] = lambda op, other: ("raise" if cx.branch(rsub_raises, "right-left raises") else user_value("dist"))
         return {"left": l, "right": r}
 
     def fresh_result(self, cx, a):
